@@ -776,6 +776,17 @@ func (h *verifC10H) checkFD(tg verifC10Target, leaf, val string, enc, ref any) {
 		fn()
 		return nil
 	}
+	// history dimension (c10hist_test.go): the fresh encoding of the value,
+	// then the disturbances; the encoding below is the one made after them
+	// (the unmodified value and one field-domain value in three)
+	var pre *verifC10HistPre
+	if h.hr != nil && (leaf == "identity" || h.hr.Chance(1, 3)) {
+		pre = h.histBefore(tg, func() ([]byte, error) {
+			b, _, e := tg.encode(enc)
+			return b, e
+		})
+	}
+	defer h.histFinish(pre, tg, class, false)
 	if p := panicked(func() { b0, tooLong, err = tg.encode(enc) }); p != nil {
 		// the statement bounds the DECODERS; an encoder panic on an unusual
 		// value is recorded, not judged
@@ -783,6 +794,7 @@ func (h *verifC10H) checkFD(tg verifC10Target, leaf, val string, enc, ref any) {
 		vc.Diag("fd_encode_panic", fmt.Sprintf("%s %s=%s: %v", tg.Name, leaf, val, p))
 		return
 	}
+	h.histAfter(pre, tg, class, b0, err != nil || tooLong, false)
 	if tooLong {
 		vc.Count("failpkt_over_256", 1)
 		return
@@ -820,6 +832,7 @@ func (h *verifC10H) checkFD(tg verifC10Target, leaf, val string, enc, ref any) {
 		return
 	}
 	vc.Count("accepted", 1)
+	h.histMid(pre, tg, wit) // other decodes before the decoded value is judged
 	// compare before the decoded value is handed to Encode (which may
 	// rewrite its ExtraData)
 	var res verifC10DiffRes
